@@ -38,6 +38,10 @@ type c07In struct {
 	Kind   string // header | scan | err | close | cancel
 	Faulty bool   // the reader of this history injects an I/O error
 	N      int    // number of objects in the input
+	// FaultCtx: the injected I/O error is itself context.Canceled / DeadlineExceeded (a
+	// body bound to its own request context) while the scanner's context is live: it is the
+	// recorded error and stays it, also after Close
+	FaultCtx bool
 }
 
 type c07Out struct {
@@ -110,6 +114,8 @@ var c07Model = porcupine.Model{
 		case "err":
 			ok := false
 			switch {
+			case s.fail && in.FaultCtx:
+				ok = out.Err == "ctx"
 			case s.fail:
 				// the recorded error: the injected one, possibly wrapped beyond errors.Is
 				ok = out.Err == "injected" || strings.HasPrefix(out.Err, "other:")
@@ -205,6 +211,7 @@ type c07Scenario struct {
 	post       string // letters: S scan, E err, C close
 	header     bool
 	faultAt    int64 // inject I/O error at this Read call (0 = none)
+	faultKind  int   // which error the reader fails with
 	slowCons   bool
 	slowReader bool // the reader sleeps at every block start (Close/cancel meet it inside Read)
 	// foreign: the parent context is not one of package context's own types, so every
@@ -218,6 +225,18 @@ type c07Scenario struct {
 	cause bool
 	// filters: always-true filter callbacks are installed, so the decoders' filter path runs
 	filters bool
+}
+
+// c07CloseMark records the moment Close has returned.
+type c07CloseMark struct {
+	c07Scanner
+	returned *atomic.Bool
+}
+
+func (m *c07CloseMark) Close() error {
+	err := m.c07Scanner.Close()
+	m.returned.Store(true)
+	return err
 }
 
 // c07ForeignCtx is a cancellable context implemented outside package context.
@@ -322,12 +341,10 @@ func c07Run(res *fw.Result, in c07Input, sc c07Scenario, key string) {
 	hist := &c07Hist{}
 	rd := mon.NewReader(in.data)
 	if sc.faultAt > 0 {
-		rd.FailAt, rd.FailErr = sc.faultAt, errInjected
-		if sc.faultAt%2 == 0 {
-			// a lost connection often surfaces as an error that wraps io.EOF; only the bare
-			// io.EOF value is the end of the stream, so the scan is still incomplete
-			rd.FailErr = errInjectedEOF
-		}
+		// flavours of the reader's failure: a plain error; one that wraps io.EOF (a lost
+		// connection: only the bare io.EOF value is the end of the stream); context.Canceled or
+		// DeadlineExceeded themselves (a body bound to its own request context)
+		rd.FailAt, rd.FailErr = sc.faultAt, []error{errInjected, errInjectedEOF, context.Canceled, context.DeadlineExceeded}[sc.faultKind%4]
 	}
 	ctx, cancel := context.WithCancel(context.Background())
 	if sc.cause {
@@ -344,7 +361,9 @@ func c07Run(res *fw.Result, in c07Input, sc c07Scenario, key string) {
 		index[k] = i
 	}
 	N := len(in.keys)
-	mk := func(kind string) c07In { return c07In{Kind: kind, Faulty: sc.faultAt > 0, N: N} }
+	mk := func(kind string) c07In {
+		return c07In{Kind: kind, Faulty: sc.faultAt > 0, N: N, FaultCtx: sc.faultAt > 0 && sc.faultKind%4 >= 2}
+	}
 
 	// the canceller is started before the scanner so that nothing the consumer does is
 	// ordered before it; it is released by a trigger that does not involve the consumer
@@ -401,14 +420,27 @@ func c07Run(res *fw.Result, in c07Input, sc c07Scenario, key string) {
 
 	var s c07Scanner
 	var ps *osmpbf.Scanner
+	var closeReturned atomic.Bool
+	var filterCalls, filterAfterClose atomic.Int64
 	if sc.target == "pbf" {
 		ps = osmpbf.New(ctx, rd, sc.procs)
 		if sc.filters {
-			ps.FilterNode = func(*osm.Node) bool { return true }
-			ps.FilterWay = func(*osm.Way) bool { return true }
-			ps.FilterRelation = func(*osm.Relation) bool { return true }
+			// always-true callbacks, every seventh call slow: a decoder can be inside one when
+			// the stop arrives. Once Close has returned no callback may start any more.
+			onFilter := func() bool {
+				if closeReturned.Load() {
+					filterAfterClose.Add(1)
+				}
+				if filterCalls.Add(1)%7 == 0 {
+					time.Sleep(200 * time.Microsecond)
+				}
+				return true
+			}
+			ps.FilterNode = func(*osm.Node) bool { return onFilter() }
+			ps.FilterWay = func(*osm.Way) bool { return onFilter() }
+			ps.FilterRelation = func(*osm.Relation) bool { return onFilter() }
 		}
-		s = ps
+		s = &c07CloseMark{c07Scanner: ps, returned: &closeReturned}
 	} else {
 		s = osmxml.New(ctx, rd)
 	}
@@ -579,6 +611,16 @@ func c07Run(res *fw.Result, in c07Input, sc c07Scenario, key string) {
 	}
 	// always leave the process clean for the next case
 	s.Close()
+	if sc.filters && sc.target == "pbf" {
+		// give a decoder that outlived Close the chance to show itself
+		if filterAfterClose.Load() == 0 {
+			time.Sleep(500 * time.Microsecond)
+		}
+		if n := filterAfterClose.Load(); n > 0 {
+			res.Violatef(key+"/filter-called-after-close-returned", "%d filter callbacks started after Close had returned (stop=%s, k=%d, %d decoders): a decoder goroutine outlived Close", n, sc.stop, sc.k, sc.procs)
+		}
+		res.Add("filter_calls_observed", filterCalls.Load())
+	}
 	if sc.foreign {
 		// Close has been called and the parent is possibly still live: whatever the scanner
 		// derived from the parent context must have been released
@@ -762,7 +804,7 @@ func c07Exec(c fw.Case) *fw.Result {
 	target := c.Str("target")
 	in := c07MakeInput(c.Seed, target, c.Str("size"))
 	sc := c07Scenario{target: target, procs: int(c.Int("procs")), stop: c.Str("stop"), post: c.Str("post"),
-		header: c.Int("header") == 1, faultAt: c.Int("fault"), slowCons: c.Int("slow") == 1, slowReader: c.Int("slowreader") == 1}
+		header: c.Int("header") == 1, faultAt: c.Int("fault"), faultKind: int(c.Int("faultkind")), slowCons: c.Int("slow") == 1, slowReader: c.Int("slowreader") == 1}
 	N := len(in.keys)
 	ks := []int{int(c.Int("k"))}
 	if c.Int("allk") == 1 {
@@ -886,15 +928,20 @@ func c07Cases(tier string, seed uint64) []fw.Case {
 			S: map[string]string{"target": "xml", "size": "filler", "stop": "cancel-reader", "post": "SE"}})
 	}
 	// (4) histories with an injected reader error
-	nfault := 16
+	nfault := 24
 	if tier == "thorough" {
-		nfault = 120
+		nfault = 192
 	}
 	for i := 0; i < nfault; i++ {
 		target := []string{"pbf", "xml"}[i%2]
+		stop := []string{"none", "close", "cancel-self"}[i%3]
+		k := int64(i % 9)
+		if stop == "none" {
+			k = 100000 // scan until the scanner stops on its own: the failure is always met
+		}
 		cs = append(cs, fw.Case{Kind: "fault", Variant: "plain", Seed: gen.Sub(seed, "c07fault", i/4),
-			P: map[string]int64{"procs": procsList[i%4], "k": int64(i % 9), "fault": int64(2 + (i*5)%17)},
-			S: map[string]string{"target": target, "size": "small", "stop": []string{"none", "close", "cancel-self"}[i%3], "post": "SECE"}})
+			P: map[string]int64{"procs": procsList[i%4], "k": k, "fault": []int64{2, 3, 4, 5, 7, 9}[(i/2)%6], "faultkind": int64(i / 3 % 4)},
+			S: map[string]string{"target": target, "size": "small", "stop": stop, "post": []string{"SECE", "CESE", "ECE"}[(i/6)%3]}})
 	}
 	// (4b) a first block that is rejected, then Close
 	for i, d := range []string{"required-feature", "corrupt-zlib", "garbage-blob", "cut-header"} {
@@ -916,7 +963,7 @@ func init() {
 		ID:    "C07",
 		Level: "fault_enumeration",
 		Rule: "call histories Header? Scan×k stop post-ops for EVERY k=0..N+1 of small PBF (with and without header block) and XML inputs × stop kind {Close, cancel from the scanning goroutine, cancel from a second goroutine overlapping further Scans, cancel immediately followed by Close with a slow reader} × decoders {1,2,4,16} (race build), checked for linearizability against a sequential scanner model with porcupine; " +
-			"1000-block inputs with a counting reader for the bytes consumed after the stop; cancellation from the reader goroutine's Read callback or a timer with a slow consumer under the race detector; histories with an injected I/O error (plain, or wrapping io.EOF as a lost connection does); Err() asked after every Scan in a third of the histories; contexts cancelled with a cause (WithCancelCause); always-true filter callbacks installed in half of the PBF histories (the decoders' filter path under the race detector); parent contexts implemented outside package context with Close / run-to-the-end stops, after which no context-watcher goroutine may be left; a rejected first block followed by Close; endless input with a logical byte budget. " +
+			"1000-block inputs with a counting reader for the bytes consumed after the stop; cancellation from the reader goroutine's Read callback or a timer with a slow consumer under the race detector; histories with an injected I/O error (plain, wrapping io.EOF as a lost connection does, or being context.Canceled / DeadlineExceeded themselves while the scanner's own context is live); Err() asked after every Scan in a third of the histories; contexts cancelled with a cause (WithCancelCause); always-true filter callbacks, every seventh one slow, installed in half of the PBF histories (the decoders' filter path under the race detector; no callback may start once Close has returned); parent contexts implemented outside package context with Close / run-to-the-end stops, after which no context-watcher goroutine may be left; a rejected first block followed by Close; endless input with a logical byte budget. " +
 			"Signature = (target, stop kind, decoders, stop-position class, post-ops, fault injected).",
 		Assumptions: []string{
 			"after a complete scan followed by Close/cancel, Err may be nil or the closed/context error (both satisfy the stated precedence)",
